@@ -127,11 +127,6 @@ Proof.
   - intros [H|[-> ->]]; auto.
 Qed.
 
-Lemma nset_nodup {A} (l : list (N * A)) k v : NoDup (map fst l) -> NoDup (map fst (nset l k v)).
-Proof.
-  intros H. unfold nset. rewrite map_app. cbn. apply NoDup_app_one.
-Abort.
-
 Lemma nodup_snoc {A} (l : list A) x : NoDup l -> ~ In x l -> NoDup (l ++ [x]).
 Proof.
   induction l as [|h t IH]; cbn; intros H N.
@@ -315,4 +310,218 @@ Proof.
   apply (reachable_inv subs_wf).
   - intros scs ty m p a H. rewrite init_with_subs in H. destruct H.
   - apply prim_subs_wf.
+Qed.
+
+(* ------------------------------------------------------------------ the stream operations *)
+
+Lemma subscribers_set_subs s r ty : subscribers (set_subs s r) ty = match nlookup r ty with Some l => l | None => [] end.
+Proof. reflexivity. Qed.
+
+(** Subscribe: a second subscription of the same path to the same type changes nothing *)
+Lemma exec1_ASub_again s t held x ty v :
+  get s (self_of t) = Some x -> alookup (subscribers s ty) (a_path x) = Some v ->
+  exec1 s t held (IAct (ASub ty)) = (s, []).
+Proof. intros H E. unfold exec1. rewrite H, E. reflexivity. Qed.
+
+(** Subscribe: a new subscription adds exactly (path, context) to that type and touches no other type *)
+Lemma exec1_ASub_new s t held x ty :
+  get s (self_of t) = Some x -> alookup (subscribers s ty) (a_path x) = None ->
+  exists s', exec1 s t held (IAct (ASub ty)) = (s', []) /\
+    subscribers s' ty = subscribers s ty ++ [(a_path x, self_of t)] /\
+    (forall ty', ty' <> ty -> nlookup (subs s') ty' = nlookup (subs s) ty') /\
+    actors s' = actors s /\ reg s' = reg s.
+Proof.
+  intros H E. unfold exec1. rewrite H, E. eexists; split; [reflexivity|]. split; [|split; [|split; reflexivity]].
+  - rewrite subscribers_set_subs, nlookup_nset_same. reflexivity.
+  - intros ty' N. cbn. apply nlookup_nset_other, N.
+Qed.
+
+(** Unsubscribe: removes exactly that path from exactly that type; the type's entry stays, possibly empty
+    (the Go code deletes from the inner map only) *)
+Lemma exec1_AUnsub s t held x ty :
+  get s (self_of t) = Some x ->
+  exists s', exec1 s t held (IAct (AUnsub ty)) = (s', []) /\
+    nlookup (subs s') ty = match nlookup (subs s) ty with Some l => Some (aremove l (a_path x)) | None => None end /\
+    subscribers s' ty = aremove (subscribers s ty) (a_path x) /\
+    (forall ty', ty' <> ty -> nlookup (subs s') ty' = nlookup (subs s) ty') /\
+    actors s' = actors s /\ reg s' = reg s.
+Proof.
+  intros H. unfold exec1. rewrite H. unfold subscribers. destruct (nlookup (subs s) ty) as [l|] eqn:E.
+  - eexists; split; [reflexivity|]. cbn [subs set_subs]. rewrite nlookup_nset_same.
+    repeat split. intros ty' N. apply nlookup_nset_other, N.
+  - eexists; split; [reflexivity|]. rewrite E. repeat split.
+Qed.
+
+(** UnsubscribeAll (also the first thing ICleanup does) *)
+Lemma exec1_AUnsubAll s t held x :
+  get s (self_of t) = Some x ->
+  exec1 s t held (IAct AUnsubAll) = (set_subs s (unsub_all (subs s) (a_path x)), []).
+Proof. intros H. unfold exec1. rewrite H. reflexivity. Qed.
+
+(** Publish: a snapshot of the current subscribers of the type, one envelope each, sent by the system *)
+Lemma exec1_IPub s t held x ty payload :
+  get s (self_of t) = Some x ->
+  exec1 s t held (IPub ty payload) =
+    (s, match subscribers s ty with
+        | [] => []
+        | _ :: _ => [IEnqAny false (map (fun p => RObj (snd p)) (subscribers s ty)) root_ref (MEvent ty payload)]
+        end).
+Proof. intros H. unfold exec1. rewrite H. destruct (subscribers s ty); reflexivity. Qed.
+
+Lemma exec1_APub s t held x ty payload :
+  get s (self_of t) = Some x -> exec1 s t held (IAct (APub ty payload)) = (s, [IPub ty [payload]]).
+Proof. intros H. unfold exec1. rewrite H. reflexivity. Qed.
+
+Lemma nodup_snd_of_fst {A B} (l : list (A * B)) (f : B -> option A) :
+  NoDup (map fst l) -> (forall p a, In (p, a) l -> f a = Some p) -> NoDup (map snd l).
+Proof.
+  induction l as [|[p a] l IH]; cbn; intros Hn Hf; [constructor|].
+  inversion Hn; subst. constructor; [|apply IH; auto].
+  intros Hin. apply in_map_iff in Hin as ([q b] & E & Hin). cbn in E; subst b.
+  apply H1. apply in_map_iff. exists (q, a). split; [|exact Hin]. cbn.
+  pose proof (Hf p a (or_introl eq_refl)) as F1. pose proof (Hf q a (or_intror Hin)) as F2. congruence.
+Qed.
+
+(** in a reachable state the snapshot names every subscribed path once and every subscribed context once *)
+Lemma fanout_targets s ty :
+  reachable s ->
+  NoDup (sub_paths s ty) /\
+  (forall p a, In (p, a) (subscribers s ty) -> exists y, get s a = Some y /\ a_path y = p) /\
+  NoDup (map (fun p => RObj (snd p)) (subscribers s ty)).
+Proof.
+  intros Hr. pose proof (subs_nodup_reachable s Hr) as Hn. pose proof (subs_wf_reachable s Hr) as Hw.
+  assert (Hwf : forall p a, In (p, a) (subscribers s ty) -> exists y, get s a = Some y /\ a_path y = p).
+  { intros p a Hin. unfold subscribers in Hin. destruct (nlookup (subs s) ty) eqn:E; [|destruct Hin].
+    eapply Hw; [apply nlookup_in; exact E|exact Hin]. }
+  split; [apply subscribers_nodup, Hn|]. split; [exact Hwf|].
+  rewrite <- (map_map snd RObj). apply FinFun.Injective_map_NoDup; [intros a b E; inversion E; reflexivity|].
+  apply (nodup_snd_of_fst _ (fun a => match get s a with Some y => Some (a_path y) | None => None end)).
+  - apply subscribers_nodup, Hn.
+  - intros p a Hin. destruct (Hwf p a Hin) as (y & -> & ->). reflexivity.
+Qed.
+
+(* ------------------------------------------------------------------ who changes the table *)
+
+Lemma subs_with_actor s a f : subs (with_actor s a f) = subs s.
+Proof. unfold with_actor. destruct (get s a); reflexivity. Qed.
+
+Lemma exec1_subs s t held i : stream_instr i = false -> subs (fst (exec1 s t held i)) = subs s.
+Proof.
+  unfold exec1. destruct (get s (self_of t)) as [x|] eqn:Hx; [|reflexivity].
+  destruct i as [sys to sender m|sys to sender m|to e| |sys tos sender m|c d rem done| | | |a|m acts r| |ty payload|poison|who| | | | |c d targets|o| ];
+    cbn [fst stream_instr]; try reflexivity; try discriminate.
+  - destruct rem; reflexivity.
+  - destruct a as [r tag acts|tag acts|sp|r poison| |n| |r|r|ty|ty| |ty payload|mode discard|discard]; cbn [fst]; try reflexivity; try discriminate.
+    + intros _. destruct (a_state x); cbn [fst]; try reflexivity.
+      all: destruct (negb (sp_prelaunch sp)); cbn [fst]; [reflexivity|].
+      all: destruct (alookup (reg s) (a_path x ++ [sp_name sp])); cbn [fst]; [reflexivity|].
+      all: rewrite subs_with_actor; reflexivity.
+    + destruct (a_cur x); reflexivity.
+    + destruct n; [|destruct (a_stash x); reflexivity]. destruct (Nat.eqb (length (a_stash x)) 0); reflexivity.
+  - intros _. destruct (a_zombie x); [reflexivity|]. destruct (a_parent x).
+    + destruct (take_until_panic acts). reflexivity.
+    + destruct m; try reflexivity. destruct (ref_eq s who (RObj (self_of t))); reflexivity.
+  - destruct (subscribers s ty); reflexivity.
+  - destruct (a_zombie x); [reflexivity|]. destruct (ref_eq s who (RObj (self_of t))); reflexivity.
+  - destruct (a_children x); [|reflexivity]. destruct (a_state x); reflexivity.
+  - destruct (a_hooks x) as [|[[h1 h2] h3] rest]; [reflexivity|]. destruct (h2 && h3); reflexivity.
+  - destruct d; reflexivity.
+Qed.
+
+Lemma dispatch_subs s a x e : subs (fst (dispatch s a x e)) = subs s.
+Proof.
+  unfold dispatch.
+  repeat match goal with |- context[match ?e with _ => _ end] => destruct e end; reflexivity.
+Qed.
+
+(** death cleans: after ICleanup the dying actor's path is subscribed to nothing, no entry mentions it *)
+Lemma cleanup_cleans s t held x :
+  get s (self_of t) = Some x ->
+  subs (fst (exec1 s t held ICleanup)) = unsub_all (subs s) (a_path x) /\
+  (forall ty m, In (ty, m) (subs (fst (exec1 s t held ICleanup))) -> alookup m (a_path x) = None) /\
+  (forall ty, alookup (subscribers (fst (exec1 s t held ICleanup)) ty) (a_path x) = None).
+Proof.
+  intros H. rewrite (exec1_ICleanup _ _ _ _ H). cbn [fst subs set_reg set_subs].
+  split; [reflexivity|]. split.
+  - intros ty m Hin. eapply unsub_all_no_entry; exact Hin.
+  - intros ty. unfold subscribers. cbn [subs set_reg set_subs].
+    destruct (nlookup (unsub_all (subs s) (a_path x)) ty) eqn:E; [|reflexivity].
+    eapply unsub_all_no_entry. apply nlookup_in. exact E.
+Qed.
+
+(* ------------------------------------------------------------------ assembled statements *)
+
+Lemma subs_nodup_unfolded s : reachable s ->
+  NoDup (map fst (subs s)) /\ (forall ty m, In (ty, m) (subs s) -> NoDup (map fst m)) /\ (forall ty, NoDup (sub_paths s ty)).
+Proof.
+  intros Hr. pose proof (subs_nodup_reachable s Hr) as [H1 H2]. split; [exact H1|]. split; [exact H2|].
+  intros ty. apply subscribers_nodup. split; assumption.
+Qed.
+
+Lemma unsubscribe_exact s t held x ty :
+  get s (self_of t) = Some x ->
+  exists s', exec1 s t held (IAct (AUnsub ty)) = (s', []) /\
+    subscribers s' ty = aremove (subscribers s ty) (a_path x) /\
+    alookup (subscribers s' ty) (a_path x) = None /\
+    ~ In (a_path x) (sub_paths s' ty) /\
+    (forall q, q <> a_path x -> alookup (subscribers s' ty) q = alookup (subscribers s ty) q) /\
+    (forall ty', ty' <> ty -> nlookup (subs s') ty' = nlookup (subs s) ty').
+Proof.
+  intros H. destruct (exec1_AUnsub s t held x ty H) as (s' & E & _ & Hs & Ho & _).
+  exists s'. split; [exact E|]. split; [exact Hs|]. rewrite Hs.
+  split; [apply alookup_aremove_same|]. split; [|split; [|exact Ho]].
+  - unfold sub_paths. rewrite Hs. apply alookup_none, alookup_aremove_same.
+  - intros q N. apply alookup_aremove_other, N.
+Qed.
+
+Lemma unsubscribe_leaves_type s t held x ty l :
+  get s (self_of t) = Some x -> nlookup (subs s) ty = Some l ->
+  nlookup (subs (fst (exec1 s t held (IAct (AUnsub ty))))) ty = Some (aremove l (a_path x)).
+Proof.
+  intros H E. destruct (exec1_AUnsub s t held x ty H) as (s' & E' & Hl & _). rewrite E'. cbn [fst].
+  rewrite Hl, E. reflexivity.
+Qed.
+
+Lemma unsubscribe_all_exact s t held x :
+  get s (self_of t) = Some x -> subs_nodup (subs s) ->
+  exists s', exec1 s t held (IAct AUnsubAll) = (s', []) /\
+    subs s' = unsub_all (subs s) (a_path x) /\
+    (forall ty, subscribers s' ty = aremove (subscribers s ty) (a_path x)) /\
+    (forall ty m, In (ty, m) (subs s') -> alookup m (a_path x) = None) /\
+    (forall ty m v, nlookup (subs s) ty = Some m -> alookup m (a_path x) = Some v -> aremove m (a_path x) = [] -> nlookup (subs s') ty = None) /\
+    (forall ty m, nlookup (subs s) ty = Some m -> alookup m (a_path x) = None -> nlookup (subs s') ty = Some m) /\
+    subs_nodup (subs s').
+Proof.
+  intros H [Hn1 Hn2]. rewrite (exec1_AUnsubAll _ _ _ _ H). eexists; split; [reflexivity|].
+  cbn [subs set_subs]. split; [reflexivity|]. split; [|split; [|split; [|split]]].
+  - intros ty. unfold subscribers. cbn [subs set_subs]. apply unsub_all_subscribers, Hn1.
+  - intros ty m Hin. eapply unsub_all_no_entry; exact Hin.
+  - intros ty m v E1 E2 E3. rewrite (unsub_all_lookup _ _ _ Hn1), E1, E2, E3. reflexivity.
+  - intros ty m E1 E2. rewrite (unsub_all_lookup _ _ _ Hn1), E1, E2. reflexivity.
+  - apply unsub_all_nodup. split; assumption.
+Qed.
+
+Lemma fanout s t held x ty payload :
+  reachable s -> get s (self_of t) = Some x ->
+  exec1 s t held (IPub ty payload) =
+    (s, match subscribers s ty with
+        | [] => []
+        | _ :: _ => [IEnqAny false (map (fun p => RObj (snd p)) (subscribers s ty)) root_ref (MEvent ty payload)]
+        end) /\
+  NoDup (sub_paths s ty) /\
+  (forall p a, In (p, a) (subscribers s ty) -> exists y, get s a = Some y /\ a_path y = p) /\
+  NoDup (map (fun p => RObj (snd p)) (subscribers s ty)).
+Proof. intros Hr H. split; [apply (exec1_IPub _ _ _ _ _ _ H)|apply fanout_targets, Hr]. Qed.
+
+Lemma restart_keeps s t held a x e poison :
+  e_msg e = MRestart poison ->
+  subs (fst (dispatch s a x e)) = subs s /\
+  subs (fst (exec1 s t held (IDoKill poison))) = subs s /\
+  subs (fst (exec1 s t held ICheckMark)) = subs s /\
+  subs (fst (exec1 s t held IRestartFinish)) = subs s /\
+  reg (fst (exec1 s t held IRestartFinish)) = reg s.
+Proof.
+  intros _. split; [apply dispatch_subs|]. repeat split; try (apply exec1_subs; reflexivity).
+  unfold exec1. destruct (get s (self_of t)) as [y|]; [|reflexivity].
+  destruct (a_hooks y) as [|[[h1 h2] h3] rest]; [reflexivity|]. destruct (h2 && h3); reflexivity.
 Qed.
